@@ -34,9 +34,6 @@ inductive Act where
   | segment
   /-- the `check_retx` body for this socket -/
   | retx (threshold max : Nat)
-  /-- a zero-window persist probe (`persist_probe`, repair `fixPersistProbe`), at any time its
-      condition holds -/
-  | probe
   /-- the wire delivers the `i`-th segment the *other* endpoint ever emitted -/
   | recv (i : Nat)
   /-- local abort (also what an RST does); `byReset = false` is retransmit exhaustion -/
@@ -57,7 +54,7 @@ def endRecv (cfg : Cfg) (e : End) (sg : Seg) : End :=
   else if e.tcb.state == .closed then e
   else
     let r := e.tcb.handleEstablished cfg sg
-    if r.2 then { e with tcb := r.1, out := e.out ++ [r.1.ackSeg cfg.recvCap 0 0] }
+    if r.2 then { e with tcb := r.1, out := e.out ++ [r.1.replySeg cfg sg 0 0] }
     else { e with tcb := r.1 }
 
 /-- One action of endpoint `e`; `o` is the other endpoint (only its `out` is read). -/
@@ -85,10 +82,6 @@ def endStep (cfg : Cfg) (mss : Nat) (e o : End) : Act → End
       match r.2 with
       | .abort => { e with tcb := r.1.abort false }
       | _ => { e with tcb := r.1 }
-    else e
-  | .probe =>
-    if e.tcb.persistCandidate then
-      { e with tcb := e.tcb.probed, out := e.out ++ [e.tcb.probeSeg cfg.recvCap 0] }
     else e
   | .recv i =>
     match o.out[i]? with
